@@ -18,6 +18,7 @@ import (
 	"crypto/tls"
 	"fmt"
 	"io"
+	"strings"
 	"sync"
 	"testing"
 	"testing/synctest"
@@ -447,6 +448,87 @@ func vfC03Run(t *testing.T, res *vfResult, row vfC03Row) {
 	synctest.Wait()
 }
 
+// vfC03ResumeBypass: a client without any certificate runs a full handshake up to ClientKeyExchange and
+// ChangeCipherSpec, withholds Certificate and Finished, and then offers the session of that unfinished handshake
+// (whose master secret it knows) on a second connection. A server that requires a client certificate must not
+// complete that abbreviated handshake: it never saw a credential.
+func vfC03ResumeBypass(t *testing.T, res *vfResult, pol ClientAuthType, ems bool) {
+	pki := vfGetPKI()
+	res.Eval(1)
+	id := fmt.Sprintf("resume-bypass/policy%d/ems=%v", pol, ems)
+	replay := map[string]any{"row": id}
+	sS := vfNewMemStore("s")
+	emsOpt := RequestExtendedMasterSecret
+	if !ems {
+		emsOpt = DisableExtendedMasterSecret
+	}
+	mkServer := func() []ServerOption {
+		so := vfSO(append(vfV12(), WithCertificates(pki.Leaf("ecdsa", "server")), WithSessionStore(sS), WithExtendedMasterSecret(emsOpt))...)
+
+		return append(so, WithClientAuth(pol), WithClientCAs(pki.Pool), WithInsecureSkipVerifyHello(true))
+	}
+	mkClient := func(store SessionStore) []ClientOption {
+		o := append(vfV12(), WithInsecureSkipVerify(true), WithServerName(vfServerName), WithExtendedMasterSecret(emsOpt))
+		if store != nil {
+			o = append(o, WithSessionStore(store))
+		}
+
+		return vfCO(o...)
+	}
+	// connection 1: the unfinished handshake
+	p, err := vfNewPair(vfNewNet(), mkClient(vfNewMemStore("c0")), mkServer())
+	if err != nil {
+		res.Count("config_rejected", 1)
+
+		return
+	}
+	sc := &vfFlightScript{Omit: map[handshake.Type]bool{handshake.TypeCertificate: true, handshake.TypeFinished: true}}
+	vfScripts.Store(p.C.Conn.handshakeConfig, sc)
+	defer vfScripts.Delete(p.C.Conn.handshakeConfig)
+	ce, se := p.Handshake(8 * time.Second)
+	var sid, secret []byte
+	if st, err := dtlsstate.As12(p.C.Conn.state); err == nil {
+		sid, secret = append([]byte(nil), st.SessionID...), append([]byte(nil), st.MasterSecret...)
+	}
+	p.Close()
+	synctest.Wait()
+	if ce == nil || se == nil {
+		res.Count("resume_bypass_first_connection_completed", 1)
+	}
+	_, stored := sS.Snapshot()[string(sid)]
+	res.Seen("resume_bypass_first", fmt.Sprintf("%s: client=%s server=%s session-stored=%v", id, vfErrNorm(ce), vfErrNorm(se), stored && len(sid) > 0))
+	if len(sid) == 0 || len(secret) == 0 {
+		res.Count("resume_bypass_no_secret", 1)
+
+		return
+	}
+	// connection 2: offer that session
+	cS := vfNewMemStore("c")
+	_ = cS.Set([]byte(vfServerAddr+"_"+vfServerName), Session{ID: sid, Secret: secret})
+	n := vfNewNet()
+	p2, err := vfNewPair(n, mkClient(cS), mkServer())
+	if err != nil {
+		return
+	}
+	ce, se = p2.Handshake(20 * time.Second)
+	res.NonTrivial(id)
+	res.Count("resume_bypass_attempts", 1)
+	abbreviated := true
+	for _, w := range n.Emissions("s") {
+		if strings.Contains(vfKind(w.Data), "ServerHelloDone") {
+			abbreviated = false
+		}
+	}
+	res.Seen("resume_bypass_second", fmt.Sprintf("%s: client=%s server=%s abbreviated=%v", id, vfErrNorm(ce), vfErrNorm(se), abbreviated))
+	if se == nil && (pol == RequireAnyClientCert || pol == RequireAndVerifyClientCert) {
+		res.Violate(fmt.Sprintf("C03:accepted-without-credential:v12:resumed-session-of-unfinished-handshake:policy%d", pol),
+			fmt.Sprintf("the server (client-auth policy %d) completed an abbreviated=%v handshake with a client that never presented a certificate: it resumed the session "+
+				"of an earlier handshake that stopped before Finished and before any client credential was seen; %s", pol, abbreviated, id), replay)
+	}
+	p2.Close()
+	synctest.Wait()
+}
+
 func TestVF_C03(t *testing.T) {
 	vfGetPKI()
 	vfInstallFilter()
@@ -461,6 +543,15 @@ func TestVF_C03(t *testing.T) {
 	vfCaseName = func(i int) string { return rows[i].ID() }
 	vfBubbles(t, len(rows), func(t *testing.T, i int) { vfC03Run(t, res, rows[i]) })
 	vfCaseName = nil
+	type rb struct {
+		pol ClientAuthType
+		ems bool
+	}
+	var rbs []rb
+	for _, pol := range []ClientAuthType{NoClientCert, RequestClientCert, RequireAnyClientCert, VerifyClientCertIfGiven, RequireAndVerifyClientCert} {
+		rbs = append(rbs, rb{pol, true}, rb{pol, false})
+	}
+	vfBubbles(t, len(rbs), func(t *testing.T, i int) { vfC03ResumeBypass(t, res, rbs[i].pol, rbs[i].ems) })
 	res.Exhaustive = true
 	res.Floor("rejected_as_required", 40)
 	res.Floor("accepted_as_required", 30)
